@@ -3383,7 +3383,8 @@ def run_api_strata(ctx):
                     return True if not isinstance(S, leafcls) else 'raised {}'.format(ex)
                 if _mem(S, e) != 't':
                     return 'element({!r}) = {!r} is not in the set'.format(v, e)
-                if isinstance(S, leafcls) and not _veq(e, v):
+                # `inp=None` means 'no input' (default element), even where None is a member
+                if isinstance(S, leafcls) and v is not None and not _veq(e, v):
                     return 'element({!r}) = {!r} differs from the member offered'.format(v, e)
                 return True
             seq1d = type(S) is odl.IntervalProd and S.ndim == 1 and isinstance(v, (tuple, list))
@@ -3602,6 +3603,19 @@ def run_api_strata(ctx):
                 w = S2.element(x)
                 if not (w == x and x == w):
                     return 'equal values in an equal space compare unequal'
+            for dt2 in ('complex128', 'complex64', 'float64'):
+                try:
+                    So = S.astype(dt2)
+                except Exception:  # noqa
+                    continue
+                if So == S:
+                    continue
+                o = So.element(x)
+                if (x == o) or (o == x) or not (x != o):
+                    return 'equal to the element of {!r} with the same values'.format(So)
+                break
+            else:
+                return 'no other space found'
             if x == flat.tolist() or x == None or x == S:  # noqa
                 return 'equal to a non-element'
             return bool(x == x)
